@@ -9,7 +9,7 @@ import gen
 from codecdiff import Diff, entries, build_pool
 
 PROP = "C04"
-MODULES = ["DV.Properties.C04"]
+MODULES = ["DV.Properties.C04", "DV.Properties.ConfigTie"]
 
 DECODE_ERRS = {"EXC ConversionError", "EXC AvpDecodeError"}
 
